@@ -369,6 +369,20 @@ class P:
             self.next()
             self.next()
             j = match_close(self.t, self.i)
+            if self.t[self.i + 1] == ('p', '@') and self.t[self.i + 2][0] == 'id':
+                # internal-rule invocation `name!(@rule args… $($conversion),+)`: the rule and its leading
+                # plain identifier arguments; the trailing repetition stands for the unit's declaration
+                rule = self.t[self.i + 2][1]
+                m = self.i + 3
+                ids = []
+                while m < j and self.t[m][0] == 'id' and not self.t[m][1].startswith('$'):
+                    ids.append(['var', self.t[m][1]])
+                    m += 1
+                rest = self.text(m, j)
+                self.i = j + 1
+                if rest != '$ ( $conversion ) , +':
+                    raise BodyError('internal macro rule with unexpected arguments: ' + rest)
+                return ['macro_rule', t, rule, ids]
             sub = P(self.t, self.i + 1, j)
             items = []
             while sub.i < sub.end:
@@ -1103,6 +1117,8 @@ class ToRx:
                 return '(.nat %d)' % int(t)
             if t == '()':
                 return '.unit'
+            if _re.fullmatch(r'[0-9]+\.[0-9]+', t):
+                return '(.path %d)' % self.n.code('c', 'lit ' + t)       # a float literal: a named constant
             return self.opaque('lit ' + e[1])
         if k == 'strlit':
             return '(.str %s)' % bytes_lit(e[1])
@@ -1209,6 +1225,14 @@ class ToRx:
             for kind, p, b in reversed(built):
                 arms = '(.%s %s %s %s)' % ('repArm' if kind == 'rep' else 'arm', p, b, arms)
             return '(.matchOn %s %s)' % (s, arms)
+        if k == 'macro_rule':
+            c = self.n.code('c', '%s!(@%s)' % (e[1], e[2]))
+            a = self.args(e[3])
+            if len(a) == 0:
+                return '(.call0 %d)' % c
+            if len(a) == 1:
+                return '(.call1 %d %s)' % (c, a[0])
+            raise BodyError('macro rule arity')
         if k == 'macro' and e[1] == 'write' and len(e[2]) in (3, 4) and e[2][1][0] == 'strlit':
             dst = self.expr(e[2][0])
             fmt = bytes_lit(e[2][1][1])
@@ -1290,6 +1314,51 @@ def impl_disc(hdr):
     return san(tr) + ('_' + san(arg) if arg else '') + '_for_' + san(ty)
 
 
+def macro_rule_arms(toks, macro):
+    """internal rules `(@rule …matcher…) => { body };` of `macro_rules! <macro>` whose matcher consists of the
+    rule name, plain `$x:ident` / `$x:expr` fragments and commas: yield (rule, [param names], body dict)"""
+    for i in range(len(toks) - 3):
+        if toks[i] == ('id', 'macro_rules') and toks[i + 1] == ('p', '!') and toks[i + 2] == ('id', macro):
+            b = i + 3
+            bend = match_close(toks, b)
+            j = b + 1
+            while j < bend:
+                if toks[j] != ('p', '('):
+                    j += 1
+                    continue
+                mend = match_close(toks, j)
+                if toks[mend + 1] != ('p', '=>'):
+                    j = mend + 1
+                    continue
+                body0 = mend + 2
+                bodyend = match_close(toks, body0)
+                m = toks[j + 1:mend]
+                if len(m) >= 2 and m[0] == ('p', '@') and m[1][0] == 'id' and not any(t == ('p', '(') for t in m):
+                    rule = m[1][1]
+                    params, ok, q = [], True, 2
+                    while q < len(m):
+                        if m[q][0] == 'id' and m[q][1].startswith('$') and q + 2 < len(m) + 1 and m[q + 1] == ('p', ':') \
+                                and m[q + 2][1] in ('expr', 'ident'):
+                            params.append(m[q][1])
+                            q += 3
+                        elif m[q] == ('p', ','):
+                            q += 1
+                        else:
+                            ok = False
+                            break
+                    if ok and params:
+                        try:
+                            body = P(toks, body0 + 1, bodyend).body()
+                        except (BodyError, IndexError) as ex:
+                            body = {'lets': [], 'result': ['opaque', 'unparsed: %s' % ex]}
+                        body['params'] = params
+                        body['ptypes'] = []
+                        body['sig'] = ''
+                        yield (rule, params, body)
+                j = bodyend + 1
+            return
+
+
 def collect(repo_src_reader, files):
     """[(key, params, lean_expr)], names"""
     from rustlex import lex
@@ -1308,6 +1377,9 @@ def collect(repo_src_reader, files):
         for ex in exps:
             fns += list(extract_fns(ex, 0, len(ex)))
         stem = _re.sub(r'[^A-Za-z0-9]+', '_', rel[:-3] if rel.endswith('.rs') else rel)
+        if rel == 'unit.rs':
+            for rule, params, body in macro_rule_arms(toks, 'unit'):
+                fns.append(('rule_%s_%d' % (rule, len(params)), (), '', body))
         for name, ctx, hdr, body in fns:
             if 'test' in ctx:
                 continue
@@ -1318,7 +1390,7 @@ def collect(repo_src_reader, files):
             if mode:
                 key += '_' + mode
             for c in ctx:
-                if c.startswith('types:') and stem == 'lib':
+                if c.startswith('types:') and stem in ('lib', 'unit'):
                     key += '_' + c[6:]
             n = seen.get(key, 0)
             seen[key] = n + 1
